@@ -538,6 +538,15 @@ func vE2EOne(t *testing.T, scn *vE2EScenario, tw *vTraceWriter, hostpriv ssh.Sig
 		e.rec.mu.Lock()
 		e.rec.dirtyU, e.rec.dirtyE = true, true
 		e.rec.events = vAppend(e.rec.events, map[string]interface{}{"ev": "restart"})
+		// The new pool learns idle behaviours from the instance tags, which are written
+		// asynchronously: what the operator asked for shortly before the restart may be lost.
+		// From here on only requests made to the new dispatcher count.
+		for w, b := range e.rec.ib {
+			if b != "run" {
+				e.rec.ib[w] = "any"
+				e.rec.events = vAppend(e.rec.events, map[string]interface{}{"ev": "setib", "w": w, "b": "any"})
+			}
+		}
 		e.rec.mu.Unlock()
 		restarted = true
 		e.vmMu.Lock()
